@@ -130,7 +130,7 @@ def _self_calls(f):
     return out
 
 
-def rule_c2(ctx, family):
+def rule_c2(ctx, family, scope=None):
     r = ctx.r
     r.rule("C2", "memo coherence: a self attribute outside the primary-state "
                  "table that a value-returning method both reads and stores "
@@ -190,6 +190,12 @@ def rule_c2(ctx, family):
         return False
     for attr, sites in sorted(memos.items()):
         q, node = sites[0]
+        if scope is not None and not any(x[0] in scope for x in sites):
+            r.note("C2", loc(q, node), f"self.{attr}",
+                   f"memo attribute filled in {q.qualname}, which this "
+                   "property's entry points do not reach (not attributed "
+                   "to this property)")
+            continue
         r.analysed(q)
         bad = [w for w in writers
                if w is not q and w.name != "__init__" and not resets(w, attr)]
